@@ -324,6 +324,21 @@ Definition C18_bucket_schedule_full_statement : Prop :=
               blast (now (fst s)) ops <= now (fst (runs V C s sched)) /\
               bk (fst (runs V C s sched)) ip = fst (bucket_run C (bk (fst s) ip) ops).
 
+(* (4d) the bucket table is a total map keyed by address: a request of ANOTHER address - AllowIP or gate 3 of its
+   handshake - never touches the bucket of ip, however many other addresses appear between two requests of ip (the
+   per-address histories of (4)/(4c) are therefore unaffected by the rest of the traffic) *)
+Theorem C18_bucket_untouched_by_other_addresses :
+  forall V C k n s p' s' r ip,
+  ip <> k -> start V C (CAllowIP k n) s = (p', s', r) -> bk s' ip = bk s ip.
+Proof. exact bucket_untouched_by_other_addresses. Qed.
+Print Assumptions C18_bucket_untouched_by_other_addresses.
+
+Theorem C18_bucket_untouched_by_other_handshakes :
+  forall V C k kd s p' s' r ip,
+  ip <> k -> continue V C (PHs3 k kd) s = (p', s', r) -> bk s' ip = bk s ip.
+Proof. exact bucket_untouched_by_other_handshakes. Qed.
+Print Assumptions C18_bucket_untouched_by_other_handshakes.
+
 (* (5) gate order of HandleHandshake: a handshake that finds the address blacklisted (gate 1) or banned
    (gate 2) ends there with that refusal: no failure recorded, no ban, no token taken, lists unchanged, the
    credential store not consulted (gate 1 may only queue the asynchronous removal of lapsed entries) *)
